@@ -112,13 +112,14 @@ def history(M, rec, rng, g, desc):
         vals0 = drive.integerise(vals0)
     opts0 = {o: True for o in ("positive_init_speed", "positive_next_speed", "positive_next_density", "positive_init_queue") if rng.random() < 0.2}
     first_engine = rng.choice(("numpy", "numpy", "SX", "MX"))
+    eng_np = NE()  # one NumPy engine instance for the whole history (as a simulation loop would use)
     ctx = {"desc": desc, "pars": pars, "vals": vals0, "opts": opts0, "first_engine": first_engine}
     symvals = O.SymVals(random.Random(5))
 
     def first_step(b):
         if first_engine == "numpy":
             ic = drive.np_init(b, vals0, "vec1", readonly=True, int_dtype=as_int)
-            ok = guarded_step(rec, b, ic, NE(), kw, opts0, "numpy", ctx)
+            ok = guarded_step(rec, b, ic, (eng_np if b is built else NE()), kw, opts0, "numpy", ctx)
             return (drive.read_next(b) if ok else None), ic
         ic, syms = drive.sym_init(M, b, first_engine, symvals, vals0)
         ok = guarded_step(rec, b, ic, CE(first_engine), kw, opts0, first_engine, ctx)
@@ -144,7 +145,8 @@ def history(M, rec, rng, g, desc):
     # intermediate operations on the same objects
     hist = []
     for _ in range(rng.randint(2, 7)):
-        op = rng.choice(("np_other_values", "np_other_options", "sx", "mx", "compile", "own_vars", "same_arrays_again"))
+        op = rng.choice(("np_other_values", "np_other_options", "sx", "mx", "compile", "own_vars", "same_arrays_again",
+                         "refresh_in_place", "refresh_in_place"))
         hist.append(op)
         try:
             if op in ("np_other_values", "np_other_options"):
@@ -165,7 +167,34 @@ def history(M, rec, rng, g, desc):
             elif op == "own_vars":
                 built.net.step(engine=NE(var_type="rand"), **kw)
             elif op == "same_arrays_again" and first_engine == "numpy":
-                guarded_step(rec, built, ic1, NE(), kw, opts0, "numpy", dict(ctx, intermediate=op))
+                guarded_step(rec, built, ic1, eng_np, kw, opts0, "numpy", dict(ctx, intermediate=op))
+            elif op == "refresh_in_place" and first_engine == "numpy" and not as_int:
+                # the caller overwrites the CONTENT of its own buffers and steps again with the same
+                # arrays, dictionary and engine: the result must be that of a fresh network from these values
+                _, vnew = g.values(desc, allow_inf=False)
+                fresh = drive.np_init(built, vnew, "vec1")
+                for el_, d_ in fresh.items():
+                    for name_, arr_ in d_.items():
+                        tgt = ic1[el_][name_]
+                        tgt.flags.writeable = True
+                        tgt[...] = arr_
+                        tgt.flags.writeable = False
+                if guarded_step(rec, built, ic1, eng_np, kw, opts0, "numpy", dict(ctx, intermediate=op)):
+                    got = drive.read_next(built)
+                    tw = D.build(M, desc, ops)
+                    tw.net.step(init_conditions=drive.np_init(tw, vnew, "vec1"), engine=NE(), **opts0, **kw)
+                    rec.count("refresh_in_place_comparisons")
+                    if not _bitwise(got, drive.read_next(tw)):
+                        rec.violation(f"{PROP}:numpy: stepping from buffers refreshed in place differs from a fresh network stepped from the same values",
+                                      dict(ctx, values=vnew, history=hist))
+                # restore the first values in place for the final repeat
+                back = drive.np_init(built, vals0, "vec1")
+                for el_, d_ in back.items():
+                    for name_, arr_ in d_.items():
+                        tgt = ic1[el_][name_]
+                        tgt.flags.writeable = True
+                        tgt[...] = arr_
+                        tgt.flags.writeable = False
         except Exception as e:
             rec.count("intermediate_raised")
             rec.seen("intermediate_raised", repr(e)[:100])
